@@ -15,6 +15,8 @@ pub struct EnumState {
     pub executions: u64,
     pub draws: u64,
     pub diverged: Option<String>,
+    /// never choose a task that is blocked and merely eligible for a spurious wake-up
+    pub no_spurious: bool,
 }
 
 impl EnumState {
@@ -73,6 +75,13 @@ impl Scheduler for EnumScheduler {
     fn next_task(&mut self, runnable: &[&Task], _current: Option<TaskId>, _y: bool) -> Option<TaskId> {
         let mut st = self.st.borrow_mut();
         let d = st.depth;
+        let filtered: Vec<&Task>;
+        let runnable: &[&Task] = if st.no_spurious && runnable.iter().any(|t| t.runnable()) {
+            filtered = runnable.iter().copied().filter(|t| t.runnable()).collect();
+            &filtered
+        } else {
+            runnable
+        };
         let n = runnable.len();
         let idx = if d < st.path.len() {
             let (pn, pi) = st.path[d];
@@ -114,7 +123,16 @@ where
     F: Fn() + Send + Sync + Clone + 'static,
     G: FnMut(Finished, Term) + 'static,
 {
-    let st = Rc::new(RefCell::new(EnumState::default()));
+    enumerate_opt(body, cfg, cap, false, on_exec)
+}
+
+/// `no_spurious`: enumerate only the schedules on which no parked/waiting task wakes spuriously.
+pub fn enumerate_opt<F, G>(body: F, cfg: shuttle::Config, cap: u64, no_spurious: bool, on_exec: G) -> EnumOutcome
+where
+    F: Fn() + Send + Sync + Clone + 'static,
+    G: FnMut(Finished, Term) + 'static,
+{
+    let st = Rc::new(RefCell::new(EnumState { no_spurious, ..Default::default() }));
     let on_exec: Rc<RefCell<G>> = Rc::new(RefCell::new(on_exec));
     loop {
         let pending: Rc<RefCell<Option<Finished>>> = Rc::new(RefCell::new(None));
